@@ -133,6 +133,10 @@ func genC09(out, tier string, rng *rand.Rand) {
 	for i := range progs {
 		progs[i] = genHistory(rng, "C09", namesRepresentable, length)
 	}
+	// directed: overwrites that keep the size (recompose from other sources, copies of composites): the
+	// file store must hold the new bytes, and so must an instance restarted on the directory
+	progs = append(progs, sameSizePrograms()...)
+	n = len(progs)
 	results := make([]res, 2*n)
 	parallel(2*n, func(k int) {
 		i := k / 2
